@@ -278,6 +278,7 @@ fn check(args: &[String]) -> i32 {
             .collect();
         let tb = Instant::now();
         let replies = pool::run_all(&cfg, &reqs);
+        write_digests(b.label, &replies);
         let mut classes: BTreeMap<String, (usize, V)> = BTreeMap::new();
         for (i, r) in replies.iter().enumerate() {
             evaluations += 1;
@@ -439,6 +440,21 @@ fn minimise_server(prop: &str, cfg: &PoolConfig, plan: &Value, inv: &str, sig: &
         Reply::Ok(v) if v.get("plan").is_some() => v["plan"].clone(),
         _ => cur,
     }
+}
+
+/// Determinism self-test support: one line per run with a hash of the worker's full reply.
+fn write_digests(label: &str, replies: &[Reply]) {
+    let Ok(path) = std::env::var("VERIF_DIGEST_OUT") else { return };
+    let mut out = String::new();
+    for (i, r) in replies.iter().enumerate() {
+        let d = match r {
+            Reply::Ok(v) => format!("{:016x}", simkit::fnv(v.to_string().as_bytes())),
+            Reply::Died(_) => "died".to_string(),
+            Reply::Hung => "hung".to_string(),
+        };
+        out.push_str(&format!("{i} {d}\n"));
+    }
+    let _ = std::fs::write(format!("{path}.{label}"), out);
 }
 
 fn replay(args: &[String]) -> i32 {
